@@ -192,6 +192,151 @@ def run_models(ctx):
     return feats
 
 
+CNT_HEADER = ('From Coq Require Import List ZArith NArith Bool.\nFrom DV Require Import C01.Syntax C01.Spec C01.Impl C13.ParseScope C13.ParseDiscipline C13.Counting.\n'
+              'Import ListNotations.\nOpen Scope Z_scope.\n'
+              'Definition mkstack (cs : list (list (N * expr))) : option stack :=\n'
+              '  fold_left (fun acc cx => match acc, run_impl 80 [[]] (ECtx cx) with Some st, (VCtx c, _) => Some (c :: st) | _, _ => None end) cs (Some []).\n'
+              'Definition ccase (cs : list (list (N * expr))) (e : expr) :=\n'
+              '  (count_push (pacts 80 e), count_pop (pacts 80 e),\n'
+              '   match mkstack cs with Some st => let r := run_counting code cart_impl 80 (cstart st) e in Some (fst r, pushes (snd r), pops (snd r)) | None => None end).\n')
+
+# one expression per error path named in C13_every_path_balanced (and the ordinary path next to it), over the scope {va: 5, vb: [1, 2], vc: {vd: 1}}
+F2 = ('fun', (101, 102), ('name', 101))
+ERROR_PATHS = [
+    ('invocation: too few positional arguments', ('call', F2, (('num', 1),))),
+    ('invocation: enough positional arguments', ('call', F2, (('num', 1), ('num', 2)))),
+    ('invocation: surplus positional arguments', ('call', F2, (('num', 1), ('num', 2), ('num', 3)))),
+    ('invocation: a named argument is missing', ('calln', F2, ((102, ('num', 1)),))),
+    ('invocation: all named arguments', ('calln', F2, ((102, ('num', 1)), (101, ('num', 2))))),
+    ('invocation of a number', ('call', ('name', 101), (('num', 1),))),
+    ('invocation of null', ('call', ('name', 108), (('num', 1),))),
+    ('invocation inside an invocation with too few arguments', ('call', F2, (('call', F2, (('num', 1),)), ('num', 2)))),
+    ('every: non-boolean body value', ('every', ((104, ('list', (('num', 1), ('bool', True)))),), ('name', 104))),
+    ('every: null body value', ('every', ((104, ('list', (('null',), ('bool', False)))),), ('name', 104))),
+    ('some: non-boolean body value', ('some', ((104, ('list', (('num', 1), ('bool', True)))),), ('name', 104))),
+    ('every: null domain', ('every', ((104, ('null',)),), ('bool', True))),
+    ('some: empty domain next to a non-empty one', ('some', ((104, ('list', ())), (105, ('list', (('num', 1),)))), ('bool', True))),
+    ('for: null domain', ('for', ((104, ('dlist', ('null',))),), ('name', 104))),
+    ('for: range with a null bound', ('for', ((104, ('drange', ('num', 1), ('null',))),), ('name', 104))),
+    ('for: range with a non-integer bound', ('for', ((104, ('drange', ('num', 1), ('dec', 25, -1))),), ('name', 104))),
+    ('for: empty list domain', ('for', ((104, ('dlist', ('list', ()))),), ('name', 104))),
+    ('for: body with a failing invocation', ('for', ((104, ('dlist', ('name', 102))),), ('call', F2, (('name', 104),)))),
+    ('filter: element context with an entry named item', ('filter', ('list', (('ctx', ((50, ('num', 1)),)),)), ('bin', 'Eq', ('name', 50), ('num', 1)))),
+    ('filter: element context without it', ('filter', ('list', (('ctx', ((104, ('num', 1)),)),)), ('bin', 'Eq', ('name', 104), ('num', 1)))),
+    ('filter: null operand', ('filter', ('null',), ('num', 1))),
+    ('filter: scalar operand', ('filter', ('name', 101), ('bool', True))),
+    ('filter: null predicate', ('filter', ('name', 102), ('null',))),
+    ('filter: predicate that is a failing invocation', ('filter', ('name', 102), ('call', F2, (('name', 50),)))),
+    ('if: non-boolean condition', ('if', ('num', 1), ('ctx', ((104, ('num', 2)),)), ('ctx', ((104, ('num', 3)),)))),
+    ('if: null condition', ('if', ('null',), ('ctx', ((104, ('num', 2)),)), ('ctx', ((104, ('num', 3)),)))),
+    ('context: an entry that is a failing invocation, read by the next entry', ('ctx', ((104, ('call', F2, (('num', 1),))), (105, ('name', 104))))),
+    ('path into a context literal', ('path', ('ctx', ((104, ('num', 1)),)), 104)),
+    ('quantifier with two variables', ('some', ((104, ('list', (('num', 1),))), (105, ('list', (('num', 2),)))), ('bin', 'Eq', ('name', 104), ('name', 105)))),
+]
+ERROR_SCOPE = (((101, ('num', 5)), (102, ('list', (('num', 1), ('num', 2)))), (103, ('ctx', ((104, ('num', 1)),)))),)
+
+
+def count_phase(ctx, hist):
+    """The number of Scope::push and Scope::pop calls the RUNNING code makes while it parses and while it evaluates an expression, against
+    the counting models (count_push / count_pop of pacts; pushes / pops of run_counting): `dv pure` under gdb, breakpoints on
+    dmntk_feel::scope::Scope::push / pop counted per phase (phase borders: parse_expression, evaluators::prepare).  No hook: symbols of the
+    unoptimised harness build.  Cases: every error path of C13_every_path_balanced (ERROR_PATHS) and generated expressions of the histories."""
+    import os, re, shutil, subprocess, tempfile
+    exe = os.path.join(core.TARGET, 'debug', 'dv')
+    if not shutil.which('gdb') or not shutil.which('nm'):
+        ctx.notes.append('push / pop counts of the running code not observed: gdb / nm not installed')
+        ctx.cov['push_pop_counts_observed'] = {'observed': False}
+        return
+    names = [l.split()[-1] for l in subprocess.run(['nm', exe], stdout=subprocess.PIPE, text=True).stdout.split('\n') if l.strip()]
+
+    def sym(rx):
+        return [n for n in names if re.search(rx, n)]
+    s_push, s_pop = sym(r'dmntk_feel5scope5Scope4push17h'), sym(r'dmntk_feel5scope5Scope3pop17h')
+    s_parse, s_prep = sym(r'dmntk_feel_parser6parser16parse_expression17h'), sym(r'dmntk_feel_evaluator10evaluators7prepare17h')
+    if not (s_push and s_pop and s_parse and s_prep):
+        ctx.notes.append('push / pop counts of the running code not observed: symbols missing in the harness binary')
+        ctx.cov['push_pop_counts_observed'] = {'observed': False}
+        return
+    cases = [(name, ERROR_SCOPE, e) for name, e in ERROR_PATHS]
+    for scopes, exprs, seq in hist[:ctx.pick(120, 1500)]:
+        ei, si = seq[0]
+        cases.append(('generated', scopes[si], exprs[ei]))
+    req = {'scopes': [[G.feel(('ctx', c)) for c in cs] for _, cs, _ in cases], 'exprs': [G.feel(e) for _, _, e in cases], 'seq': [[i, i] for i in range(len(cases))]}
+    tmp = tempfile.mkdtemp(prefix='c13cnt-', dir=core.BUILD)
+    try:
+        open(os.path.join(tmp, 'req.json'), 'w').write(json.dumps(req) + '\n')
+        g = ['set pagination off', 'set confirm off', 'set $u = 0', 'set $o = 0']
+        for n in s_parse:
+            g += ["break '%s'" % n, 'commands', 'silent', 'printf "@@E %d %d\\n", $u, $o', 'set $u = 0', 'set $o = 0', 'continue', 'end']
+        for n in s_prep:
+            g += ["break '%s'" % n, 'commands', 'silent', 'printf "@@P %d %d\\n", $u, $o', 'set $u = 0', 'set $o = 0', 'continue', 'end']
+        for n in s_push:
+            g += ["break '%s'" % n, 'commands', 'silent', 'set $u = $u + 1', 'continue', 'end']
+        for n in s_pop:
+            g += ["break '%s'" % n, 'commands', 'silent', 'set $o = $o + 1', 'continue', 'end']
+        g += ['run pure < %s > %s' % (os.path.join(tmp, 'req.json'), os.path.join(tmp, 'out.json')), 'printf "@@E %d %d\\n", $u, $o', 'quit']
+        open(os.path.join(tmp, 'cnt.gdb'), 'w').write('\n'.join(g) + '\n')
+        try:
+            out = subprocess.run(['gdb', '-batch', '-nx', '-x', os.path.join(tmp, 'cnt.gdb'), exe], stdout=subprocess.PIPE, stderr=subprocess.STDOUT, text=True, timeout=600).stdout
+            steps = json.loads(open(os.path.join(tmp, 'out.json')).read().split('\n')[0]).get('steps')
+        except Exception as ex:
+            ctx.notes.append('push / pop counts of the running code not observed: %s' % str(ex)[:200])
+            ctx.cov['push_pop_counts_observed'] = {'observed': False}
+            return
+    finally:
+        shutil.rmtree(tmp, ignore_errors=True)
+    ev = [(m.group(1), int(m.group(2)), int(m.group(3))) for m in re.finditer(r'@@([EP]) (\d+) (\d+)', out)]
+    # E (start of expression 0; counts of the set-up) [P parse counts] E (evaluation counts = start of the next expression) ...
+    per = []
+    i = 1
+    while i < len(ev):
+        if ev[i][0] == 'P' and i + 1 < len(ev) and ev[i + 1][0] == 'E':
+            per.append((ev[i][1:], ev[i + 1][1:]))
+            i += 2
+        else:
+            per.append((ev[i][1:], None))       # the parse failed: no evaluator prepared
+            i += 1
+    if not steps or len(per) != len(cases) or len(steps) != len(cases):
+        ctx.corr_broken('push / pop counting run: %d phase records and %d answers for %d expressions' % (len(per), len(steps or []), len(cases)), {'exprs': req['exprs'][:3]}, len(per), len(cases))
+        return
+    terms = ['ccase [%s] %s' % ('; '.join('[%s]' % '; '.join('(%d%%N, %s)' % (n, G.coq(x)) for n, x in c) for c in cs), G.coq(e)) for _, cs, e in cases]
+    model = ctx.run_model(CNT_HEADER, terms, shard_size=300, tag='cnt')
+    compared = unbalanced_seen = 0
+    kinds = {}
+    for (name, cs, e), (pc, ec), st, rm in zip(cases, per, steps, model):
+        ctx.evaluations += 1
+        case = {'scope': [G.feel(('ctx', c)) for c in cs], 'e': G.feel(e), 'path': name}
+        if ec is None or 'v' not in st:
+            if name != 'generated':
+                ctx.corr_broken('an error-path expression was rejected by the parser', case, st, None)
+            continue
+        mpu, mpo, me = rm
+        # the property itself, on the code's own counts
+        if pc[0] != pc[1]:
+            ctx.violation('a successful parse made %d pushes and %d pops on the parsing scope (%s)' % (pc[0], pc[1], name), case, impl=pc)
+            continue
+        if ec[0] != ec[1]:
+            ctx.violation('the evaluation made %d pushes and %d pops on the caller\'s scope (%s)' % (ec[0], ec[1], name), case, impl=ec)
+            continue
+        ctx.corr_checked += 1
+        if (mpu, mpo) != tuple(pc):
+            ctx.corr_broken('pushes / pops of the parser differ from count_push / count_pop of pacts', case, list(pc), [mpu, mpo])
+        if isinstance(me, App) and me.name == 'Some':
+            mv, mu, mo = me.args[0]
+            try:
+                mval(mv)
+            except Poison:
+                continue
+            compared += 1
+            kinds[name] = kinds.get(name, 0) + 1
+            if (mu, mo) != tuple(ec):
+                ctx.corr_broken('pushes / pops of the evaluation differ from run_counting', case, list(ec), [mu, mo])
+            if ec[0] > 0:
+                ctx.nontrivial.add('count:' + case['e'])
+    ctx.cov['push_pop_counts_observed'] = {'observed': True, 'expressions': len(cases), 'evaluation_counts_compared_with_run_counting': compared,
+                                           'error_paths': len(ERROR_PATHS), 'error_paths_compared': sum(v for k, v in kinds.items() if k != 'generated')}
+
+
 def run(ctx):
     ctx.proof_gate()
     ctx.build_harness()
@@ -269,6 +414,8 @@ def run(ctx):
                 # value disagreements are C01's subject; here they only mean the model does not describe this evaluation
                 ctx.corr_broken('value of a prepared expression (C01 decides whether it is wrong)', {'scopes': rq['scopes'][si], 'e': rq['exprs'][ei]}, ival(v), mv)
         ctx.sample({'scopes': rq['scopes'], 'exprs': rq['exprs'][:2], 'seq': rq['seq'][:8]})
+    # ---- pushes and pops counted in the running code, per phase, against the counting models (every error path of the discipline theorem)
+    count_phase(ctx, hist)
     # ---- the parser's own scope discipline: action trace of the real parser vs coq/C13/ParseScope.v
     pt = []
     for (scopes, exprs, seq), rq in list(zip(hist, reqs))[:ctx.pick(250, 3000)]:
@@ -348,6 +495,14 @@ def replay(ctx, path):
     obj = json.load(open(path))
     ctx.build_harness()
     c = obj['case']
+    if 'path' in c and 'e' in c:
+        # a case of the push / pop counting phase: the expression twice over its scope; an unbalanced push or pop shows in the scope text
+        r = ctx.run_impl('pure', [{'scopes': [c['scope']], 'exprs': [c['e']], 'seq': [[0, 0], [0, 0]]}])[0]
+        print(json.dumps(r, ensure_ascii=False)[:3000])
+        print('what was recorded:', obj.get('what'))
+        bad = any(st.get('before') != st.get('after') or st.get('before') != st.get('after_parse') for st in r.get('steps', []))
+        print('REPRODUCED (the scope text changes)' if bad else 'not reproduced')
+        return 1 if bad else 0
     if 'scopes' in c:
         r = ctx.run_impl('pure', [c])[0]
         print(json.dumps(r, ensure_ascii=False)[:3000])
@@ -370,11 +525,30 @@ def replay(ctx, path):
 
 
 MANIFEST = dict(
-    technique='Coq proof (scope-stack machine restores the stack and returns the solo value for every expression, stack and evaluation sequence) with history correspondence',
-    text='Theorems (coq/Props/C13.v) hold for every expression of the core fragment, every scope stack and every sequence of evaluations: the transliterated evaluator leaves the stack exactly '
-         'as it found it (each push matched by a pop, no set_entry below the pushed context) and each evaluation returns its solo value. Tied to the code by histories of prepared evaluators over '
-         'persistent multi-context scopes (scope text compared before/after parse/after evaluation; value = first value = model value), by shuffled repeated model invocations, and at model level by '
-         'generated DMN models (decision services, knowledge models with literal / boxed context / boxed invocation bodies, decisions calling them as functions) in which every invocation is surrounded by '
-         'reads of names of the enclosing scope that the callee binds to other values: every invocable is evaluated twice in two orders and must return the value a Python evaluator of the node semantics gives.',
-    note='Trusted: Coq kernel + vm_compute, the machine model of builders.rs/iterations.rs (correspondence-checked), Scope Display as observation of the scope. The parser\'s own scope handling '
-         '(push/pop while parsing contexts, for, function parameters) is observed by the correspondence only, not modelled; built-ins and temporal values are outside the fragment.')
+    technique='Coq proof (scope-stack machine restores the stack; push / pop discipline proved construct by construct on an instrumented machine that counts pushes and pops, for every '
+              'outcome of the sub-evaluations; parser scope discipline on the transliterated action list; model-level scope of the C04 ImplModel) with history correspondence and push / pop '
+              'counts observed in the running code',
+    text='Theorems (coq/Props/C13.v, 21 obligations, all closed). (1) Machine of coq/C01/Impl.v (it threads a scope stack and pushes / pops where builders.rs and iterations.rs do): '
+         'C13_stack_restored, C13_repeatable (= Gallina purity + C13_stack_restored, kept), C13_value_is_semantic. (2) WHY the stack is restored: run_counting (coq/C13/Counting.v) is that machine '
+         'with every Scope::push and Scope::pop counted (C13_counting_is_run: same value, same stack); C13_every_path_balanced: ONE construct over an ARBITRARY balanced evaluator r of its '
+         'sub-expressions and function bodies makes k pushes and k pops and ends on the stack it started with - for every construct of the fragment and every answer r may give (null / non-boolean / '
+         'poisoned conditions, too few positional or missing named arguments, null / empty / non-integer domains, non-list and null filter operands, element contexts with and without an entry named '
+         'item); C13_run_counting_balanced closes the recursion for all expressions, fuels and start states; C13_stack_restored_by_discipline re-derives C13_stack_restored from pushes = pops. The '
+         'discipline is a property of where the pushes and pops sit: the placements of the seeded changes C13_b / C01_d (arguments bound on the scope, early return), C13_d (every pops only on a '
+         'boolean) and C13_a (filter pop nested in the wrong if) are variants of the same layer and C13_seeded_C13_b/_d/_a_refuted show each unbalanced on its error path and balanced off it. '
+         '(3) Parser: pacts (coq/C13/ParseScope.v) transliterates the scope actions of the reduce actions of parser.rs in reduction order (compared with the action trace of the real parser); '
+         'C13_parse_scope_balanced (final state), C13_parse_discipline / C13_parse_never_touches_callers_scope (at EVERY prefix of the action list of a successful parse the scope is the caller\'s scope '
+         'with the parser\'s own contexts on top: no pop and no name added below them), C13_parse_pushes_equal_pops; not by construction: pacts is the member `false` of a family of placements '
+         '(C13_pacts_is_placement_false) whose other member - one push per quantified variable, one pop: seeded change C13_c - satisfies every clause for one variable and none for two '
+         '(C13_seeded_C13_c_refuted). (4) Model level: the ImplModel of C04 threads a flattened scope through the evaluation of a decision\'s logic (C04.Model.tev); C13_invocation_restores_scope: after ANY '
+         'expression (invocations of knowledge models and decision services, boxed contexts with / without result entry, relations), any fuel, any service behaviour, the scope is the one it started with; '
+         'C13_invocations_repeatable, C13_decision_logic_restores_scope (the evaluation inside body / impl_invoke); C13_leaky_context_orig_refuted (the pinned variant / seeded change C04_d violates it). '
+         'impl_invoke / body of C04 take the caller\'s input context by value (the code: &FeelContext), there is no caller scope to restore at that level; the seeded change C13_e (service body pops the '
+         'argument context) is not expressible in the flattened model and is tied by the correspondence only. '
+         'Tied to the code by: histories of prepared evaluators over persistent multi-context scopes (scope text before = after parse = after evaluation; value = first value = model value); the NUMBER of '
+         'Scope::push / Scope::pop calls of the running code per parse and per evaluation (gdb breakpoints on the unoptimised harness, no hook) = count_push / count_pop of pacts and pushes / pops of '
+         'run_counting, on 29 error-path expressions (one per path named above) and 120 generated ones, and pushes = pops judged on the code\'s own counts; parser action traces = pacts; shuffled repeated '
+         'model invocations; generated DMN models in which every invocation is surrounded by reads of names the callee binds to other values.',
+    note='Trusted: Coq kernel + vm_compute, the machine model of builders.rs/iterations.rs and the action list of parser.rs (both correspondence-checked, including their push / pop counts), Scope Display as '
+         'observation of the scope, gdb + symbol names of the debug build for the counts. Built-ins and temporal values are outside the fragment; C13_e-style defects inside decision_service.rs are caught by '
+         'the model-level correspondence, not by a theorem.')
